@@ -625,14 +625,40 @@ VLINE_ENS;
 #undef g
 #undef b
 #undef a
-/* draw_line (Bresenham with a double-precision error term): decided here for ANY end points: out_of_range never escapes, a pixel that
- * changes gets exactly the colour (frame).  Which pixels form the path is not decided (floating point), see props/C07.py NOT_DECIDED. */
+/* draw_line (Bresenham with a double-precision error term).  Decided for ANY end points: out_of_range never escapes, a pixel that changes
+ * gets exactly the colour (frame).  The PATH is decided as far as it does not depend on floating point -- through a ghost record of the
+ * pixels handed to write_pixel (C07_LINE_STEP, injected before each call): g_ln attempts so far, first pixel (g_fx,g_fy), last pixel
+ * (g_lx,g_ly), g_conn = "every attempted pixel is 8-adjacent to, and different from, its predecessor":
+ *   - the path is connected (g_conn);
+ *   - it starts at one of the two end points;
+ *   - for two in-canvas end points: unless the walk left the canvas (last attempted pixel outside; that can only come from the
+ *     floating-point minor coordinate), exactly max(|dx|,|dy|)+1 pixels are written and the last one has the major-axis coordinate
+ *     of the other end point.
+ * Not decided (floating point): the minor coordinate of the far end ("contains both ends" in full) and the distance from the ideal segment. */
+extern size_t g_ln; extern bool g_conn; extern ssize_t g_fx, g_fy, g_lx, g_ly;
+#define C07_ABSD(p, q) ((p) > (q) ? (p) - (q) : (q) - (p))
+#define C07_NEAR(p, q) ((p) == (q) || (p) == (q) + 1 || (p) == (q) - 1)   /* overflow-free for a bounded q */
+#define C07_ADJ(px, py, qx, qy) (C07_NEAR(qx, px) && C07_NEAR(qy, py) && !((px) == (qx) && (py) == (qy)))
+#define C07_LINE_STEP(px, py) { if (g_ln == 0) { g_fx = (px); g_fy = (py); } else { g_conn = g_conn && C07_ADJ((px), (py), g_lx, g_ly); } \
+                                g_lx = (px); g_ly = (py); g_ln++; }
+#define LINE_G g_ln, g_conn, g_fx, g_fy, g_lx, g_ly
+#define LINE_STEEP (C07_ABSD(y1, y0) > C07_ABSD(x1, x0))
+#define LINE_MAXD (LINE_STEEP ? C07_ABSD(y1, y0) : C07_ABSD(x1, x0))
+#define LINE_FIRST_IS_0 (g_fx == x0 && g_fy == y0)
+#define LINE_LAST_MAJOR (LINE_STEEP ? g_ly == (LINE_FIRST_IS_0 ? y1 : y0) : g_lx == (LINE_FIRST_IS_0 ? x1 : x0))
+#define LINE_PATH \
+__CPROVER_requires(g_ln == 0 && g_conn) \
+__CPROVER_ensures(g_conn) \
+__CPROVER_ensures(g_ln >= 1 ==> ((g_fx == x0 && g_fy == y0) || (g_fx == x1 && g_fy == y1))) \
+__CPROVER_ensures((!OUTSIDE(self, x0, y0) && !OUTSIDE(self, x1, y1)) ==> g_ln >= 1) \
+__CPROVER_ensures((!OUTSIDE(self, x0, y0) && !OUTSIDE(self, x1, y1) && !OUTSIDE(self, g_lx, g_ly)) ==> (g_ln == (size_t)LINE_MAXD + 1 && LINE_LAST_MAJOR))
 void Image_draw_line(Image* self, ssize_t x0, ssize_t y0, ssize_t x1, ssize_t y1, uint64_t r, uint64_t g, uint64_t b, uint64_t a)
 DST_REQ(self)
 __CPROVER_requires(COORD_OK(x0) && COORD_OK(y0) && COORD_OK(x1) && COORD_OK(y1))
+LINE_PATH
 __CPROVER_ensures(verif_exc == 0)
 __CPROVER_ensures(D4_OLD || COLOURED)
-__CPROVER_assigns(D_ASSIGNS);
+__CPROVER_assigns(D_ASSIGNS, LINE_G);
 #define r C_R(c)
 #define g C_G(c)
 #define b C_B(c)
@@ -640,9 +666,10 @@ __CPROVER_assigns(D_ASSIGNS);
 void Image_draw_line_c(Image* self, ssize_t x0, ssize_t y0, ssize_t x1, ssize_t y1, uint32_t c)
 DST_REQ(self)
 __CPROVER_requires(COORD_OK(x0) && COORD_OK(y0) && COORD_OK(x1) && COORD_OK(y1))
+LINE_PATH
 __CPROVER_ensures(verif_exc == 0)
 __CPROVER_ensures(D4_OLD || COLOURED)
-__CPROVER_assigns(D_ASSIGNS);
+__CPROVER_assigns(D_ASSIGNS, LINE_G);
 #undef r
 #undef g
 #undef b
